@@ -10,7 +10,8 @@ ID = 'C16'
 ENGINE = 'E1 full product'
 RULE = ("vrl x object-name length x payload length (0..40 and k*cap+{-2..2}) x kind {bytes, bytearray, str} x tail "
         "{plain, 01, 00, ff}, single payloads; plus all ordered sequences of 2..3 payloads from a 6-length window over "
-        "1..2 NO-FORMAT objects in every interleaving; non-trivial = file written and type-1 IFLRs compared")
+        "1..2 NO-FORMAT objects in every interleaving; a third of the cases is written twice with the same objects and "
+        "the second file is checked; non-trivial = file written and type-1 IFLRs compared")
 ASSUMPTIONS = ["strict reader mc/rp66.py", "reference model mc/model.py"]
 
 
@@ -74,9 +75,30 @@ def make_spec(case):
     return sp
 
 
+def _write_twice(sp):
+    """Write the same objects twice; returns the result of the SECOND write (run_spec-like)."""
+    import os
+    from mc.engine import scratch_dir
+    b = S.build(sp)
+    res = {'status': b.status, 'failed_at': b.failed_at, 'write': 'skipped', 'data': None}
+    if b.failed_at is not None:
+        return res
+    path = os.path.join(scratch_dir(), 'c16-twice.dlis')
+    try:
+        b.df.write(path, **S.write_kwargs(sp, b))
+        b.df.write(path, **S.write_kwargs(sp, b))
+        res['write'] = 'ok'
+        res['data'] = open(path, 'rb').read()
+    except Exception as e:  # noqa
+        res['write'] = f"raised:{type(e).__name__}: {e}"
+    return res
+
+
 def run_case(case):
     sp = make_spec(case)
-    res = S.run_spec(sp)
+    # every third case of a shard is written twice with the same objects; the second file is the one that is checked
+    twice = (sum(n for _, n, _, _ in case['seq']) + len(case['seq'])) % 3 == 0
+    res = _write_twice(sp) if twice else S.run_spec(sp)
     if res['failed_at'] is not None:
         return Outcome('build-raised', [("C16:build-raised", f"{res['status'][-1]} | {case}")], False)
     if res['write'] != 'ok':
@@ -94,7 +116,7 @@ def run_case(case):
             viol.append((sig, f"{d} | {case}"))
     except R.FormatError as e:
         viol.append((f"C16:unparsable:{e.code}", f"{e} | {case}"))
-    return Outcome('ok:%d' % len(case['seq']), viol, True, digest=sha(res['data']))
+    return Outcome('ok:%d%s' % (len(case['seq']), ':second-write' if twice else ''), viol, True, digest=sha(res['data']))
 
 
 def _classify(m, lf):
